@@ -160,7 +160,7 @@ pub fn run(ctx: &mut Ctx, replay: Option<&Value>) {
         run_case(ctx, case);
         return;
     }
-    let n = ctx.cases.unwrap_or(if ctx.tier_thorough { 60_000 } else { 3_000 });
+    let n = ctx.count(8_000, 60_000);
     for i in 0..n {
         let mut rng = Rng::fork(ctx.seed, i);
         let case = gen_case(&mut rng, ctx.tier_thorough, i);
